@@ -10,6 +10,9 @@ VARIABLES hist
 GInit == Init /\ hist = <<evt>>
 GNext == Next /\ hist' = Append(hist, evt')
 GSpec == GInit /\ [][GNext]_<<vars, hist>>
+\* for TLC's simulation mode
+GNextSim == NextSim /\ hist' = Append(hist, evt')
+GSpecSim == GInit /\ [][GNextSim]_<<vars, hist>>
 
 \* always true; prints maximal behaviours
 Emit == Done => PrintT(<<"CASE", ToJson([side |-> Side, steps |-> hist])>>)
